@@ -568,9 +568,15 @@ def aggregate(pid, mod, tier, seed, results, t0, extra=None, replay=False):
         else:
             new.setdefault(v["key"], []).append(v)
     lines = []
-    for key, v in known_seen.items():
-        lines.append("KNOWN-FINDING: property=%s %s — %s (seen %d×)" % (pid, key, open_keys[key].get("what", v["what"]),
-                                                                      viol_counts[key]))
+    if not replay:
+        for key, kf in open_keys.items():
+            seen = viol_counts.get(key, 0)
+            lines.append("KNOWN-FINDING: property=%s %s — %s (%s)" % (
+                pid, key, kf.get("what", ""), "seen %d× in this run" % seen if seen else "listed; not reached by this run's cases"))
+    else:
+        for key, v in known_seen.items():
+            lines.append("KNOWN-FINDING: property=%s %s — %s (seen %d×)" % (pid, key, open_keys[key].get("what", v["what"]),
+                                                                          viol_counts[key]))
     replay_paths = []
     if new:
         rdir = os.path.join(ROOT, "replays", pid) if REPO == "/repo" else os.path.join(CACHE, "replays_scratch", pid)
